@@ -3416,7 +3416,10 @@ impl AsNode for XmlNamespace {
 
 impl AsExpandedName for XmlNamespace {
     fn as_expanded_name(&self) -> error::Result<Option<ExpandedName>> {
-        Ok(Some((self.node_name(), None, None)))
+        // The local part is the prefix the node binds: empty for the default namespace.
+        let namespace = self.namespace.borrow();
+        let prefix = namespace.prefix().unwrap_or_default().to_string();
+        Ok(Some((prefix, None, None)))
     }
 }
 
